@@ -4,6 +4,7 @@ import (
 	"fmt"
 	"go/token"
 	"go/types"
+	"sort"
 	"strings"
 
 	"golang.org/x/tools/go/ssa"
@@ -141,7 +142,7 @@ func (f *Frame) execInstr(ins ssa.Instruction, st *State) {
 		a, b := f.val(x.X), f.val(x.Y)
 		f.set(x, u.nameVal(x.Name(), f.binop(st, x.Op, a, b, x.Type(), x.Pos())))
 	case *ssa.Store:
-		if path := ssaPath(x.Addr); path != "" && strings.Contains(path, ".") {
+		if path := f.ssaPath(x.Addr); path != "" && strings.Contains(path, ".") {
 			f.curCallArgs = []*V{f.val(x.Val)}
 			f.anchorsAt("store", path, st)
 		}
@@ -152,7 +153,7 @@ func (f *Frame) execInstr(ins ssa.Instruction, st *State) {
 		f.store(st, p, f.val(x.Val))
 	case *ssa.MapUpdate:
 		m := f.val(x.Map)
-		if path := ssaPath(x.Map); path != "" {
+		if path := f.ssaPath(x.Map); path != "" {
 			f.curCallArgs = []*V{f.val(x.Key), f.val(x.Value)}
 			f.anchorsAt("mapupdate", path, st)
 		}
@@ -231,6 +232,8 @@ func (f *Frame) execInstr(ins ssa.Instruction, st *State) {
 		}
 		f.rets = append(f.rets, retRec{st: st.clone(), vals: vs})
 		if f.top {
+			f.curCallArgs = vs
+			f.anchorsAt("return", "", st)
 			f.checkPost(st, vs)
 		}
 	case *ssa.If, *ssa.Jump:
@@ -731,22 +734,44 @@ func describeCall(c *ssa.CallCommon) string {
 	return strings.TrimSpace(c.Value.Name())
 }
 
-// ssaPath names simple access paths: parameter, parameter.field, parameter.field.field.
-func ssaPath(v ssa.Value) string {
+// ssaPath names simple access paths in source terms: variable, variable.field,
+// variable.field.field, variable.field[] (an element).
+func (f *Frame) ssaPath(v ssa.Value) string {
 	switch x := v.(type) {
 	case *ssa.Parameter:
 		return x.Name()
 	case *ssa.UnOp:
 		if x.Op.String() == "*" {
-			return ssaPath(x.X)
+			if p := f.ssaPath(x.X); p != "" {
+				return p
+			}
 		}
 	case *ssa.FieldAddr:
-		b := ssaPath(x.X)
+		b := f.ssaPath(x.X)
 		if b == "" {
 			return ""
 		}
 		st := x.X.Type().Underlying().(*types.Pointer).Elem().Underlying().(*types.Struct)
 		return b + "." + st.Field(x.Field).Name()
+	case *ssa.IndexAddr:
+		b := f.ssaPath(x.X)
+		if b == "" {
+			return ""
+		}
+		return b + "[]"
+	}
+	// a local variable: find a source name bound to this value
+	var names []string
+	for name, refs := range f.varRefs {
+		for _, r := range refs {
+			if r.val == v && !r.addr {
+				names = append(names, name)
+			}
+		}
+	}
+	if len(names) > 0 {
+		sort.Strings(names)
+		return names[0]
 	}
 	return ""
 }
